@@ -179,6 +179,15 @@ func runC21(x *simkit.Exec) {
 			}
 		}
 
+		// many more tenants on one node: which nodes a tenant gets depends on a hash of its name, so
+		// corners of the selection walk are only reached by particular names
+		if len(c.nodes) > 0 {
+			nd := c.nodes[0]
+			for j := 0; j < 30; j++ {
+				observe(nd, seriesKey{fmt.Sprintf("q%dq%d", x.Seed%100000, j), 0}, false)
+			}
+		}
+
 		// ---- oracle
 		firstShard := map[string]*shardObs{}
 		for _, o := range all {
